@@ -310,3 +310,282 @@ def _is_nan_bits(s):
     exp = (bits >> 52) & 0x7FF
     man = bits & ((1 << 52) - 1)
     return exp == 0x7FF and man != 0
+
+
+# ------------------------------------------------------------------ R18.4 ordering / equality of numbers
+
+import struct
+from rules import recursion
+from mir import callee_name
+
+
+def f64_of_bits(v):
+    if isinstance(v, str) and v.startswith('bits:'):
+        return struct.unpack('>d', struct.pack('>Q', int(v[5:])))[0]
+    return None
+
+
+ORDER_ROOTS = ['<number::Number as std::cmp::Ord>::cmp', '<number::Number as std::cmp::PartialEq>::eq', '<number::Number as std::cmp::PartialOrd>::partial_cmp']
+
+
+def order_cone(ctx):
+    cg = recursion.augment(ctx)
+    roots = [r for r in ORDER_ROOTS if r in ctx.facts.bodies]
+    return roots, sorted(cg.reachable(roots))
+
+
+def float_bounds(conds, atom):
+    """(lo, lo_strict, hi, hi_strict, nan_possible) implied for a float-valued atom by comparisons with float constants."""
+    lo, los, hi, his = float('-inf'), False, float('inf'), False
+    nan = True
+    for c in conds:
+        t, op, val = c[0], c[1], c[2]
+        if t[0] == 'call' and called(t[1], 'f64::is_nan') and deref_all(t[2][0]) == atom and val is False:
+            nan = False
+        if t[0] != 'bin' or t[1] not in ('Lt', 'Le', 'Gt', 'Ge') or op != 'eq' or not isinstance(val, bool):
+            continue
+        a, b = t[2], t[3]
+        o = t[1]
+        if b == atom and a[0] == 'const':
+            a, b = b, a
+            o = {'Lt': 'Gt', 'Le': 'Ge', 'Gt': 'Lt', 'Ge': 'Le'}[o]
+        if a != atom or b[0] != 'const':
+            continue
+        k = f64_of_bits(b[1])
+        if k is None:
+            continue
+        if val:
+            # the comparison holds: atom is not NaN
+            nan = False
+            eff = o
+        else:
+            # negation holds for non-NaN values (a NaN makes every comparison false)
+            eff = {'Lt': 'Ge', 'Le': 'Gt', 'Gt': 'Le', 'Ge': 'Lt'}[o]
+        if eff == 'Lt' and (k < hi or (k == hi and not his)):
+            hi, his = k, True
+        elif eff == 'Le' and k < hi:
+            hi, his = k, False
+        elif eff == 'Gt' and (k > lo or (k == lo and not los)):
+            lo, los = k, True
+        elif eff == 'Ge' and k > lo:
+            lo, los = k, False
+    return lo, los, hi, his, nan
+
+
+def r18_4(ctx, run, rule='R18.4'):
+    """No lossy conversion decides an order or equality of numbers."""
+    f = ctx.facts
+    roots, cone = order_cone(ctx)
+    run.floor(rule, 'Number ordering entry points', len(roots), 3)
+    n_casts = 0
+    n_cmp = 0
+    for p in cone:
+        b = f.bodies[p]
+        if b.kind == 'Promoted':
+            continue
+        # (a) int -> float casts of 64-bit integers
+        for bb, i, s in b.all_stmts():
+            if s['k'] != 'assign' or s['rv']['k'] != 'cast':
+                continue
+            rv = s['rv']
+            if rv['kind'] == 'IntToFloat':
+                src_ty = operand_ty(b, rv['op'])
+                if src_ty in ('i64', 'u64', 'i128', 'u128', 'usize', 'isize'):
+                    n_casts += 1
+                    run.violation(rule, p, f'cast[{src_ty} as {rv["to"]["s"]}]',
+                                  f'a 64-bit integer is converted to {rv["to"]["s"]} on the way to a comparison: integers beyond 2^53 are rounded, so distinct numbers '
+                                  'compare Equal and the order is not transitive', f"{s.get('file')}:{s.get('line')}")
+        # (b) float -> int casts must be range-guarded on every path
+        ps, capped = explore(b)
+        sites = {}
+        for q in ps:
+            for (ci, cast_t, loc) in float_to_int_casts(b, q):
+                n_casts += 1
+                ty = cast_t[3]
+                atom = cast_t[2]
+                src = atom
+                # the cast operand is trunc(r) of the guarded float r: look through trunc()
+                if src[0] == 'call' and called(src[1], 'f64::trunc', 'f64::floor', 'f64::round') and src[2]:
+                    src = deref_all(src[2][0])
+                lo, los, hi, his, nan = float_bounds(q.conds, src)
+                tr = INT_RANGES.get(ty)
+                ok = False
+                if tr:
+                    need_hi = float(tr[1] + 1)      # exclusive upper bound 2^63 / 2^64
+                    need_lo = float(tr[0])          # inclusive lower bound (-2^63 / 0); (-1, 0) truncates to 0 for unsigned
+                    ok_hi = hi < need_hi or (hi == need_hi and his)
+                    ok_lo = lo > need_lo - 1 or (lo == need_lo and True) or (lo >= need_lo)
+                    ok = ok_hi and ok_lo and not nan
+                k = (p, f'cast[{show(src)[:40]} as {ty}]')
+                d = sites.setdefault(k, {'ok': True, 'why': '', 'loc': loc})
+                if not ok:
+                    d['ok'] = False
+                    d['why'] = (f'on some path the operand is only known to lie in {"(" if los else "["}{lo}, {hi}{")" if his else "]"}'
+                                f'{" or to be NaN" if nan else ""}; values outside [{tr[0]}, {tr[1]}] saturate, so the integer/float comparison is wrong at the boundary')
+        for (p2, desc), d in sites.items():
+            if d['ok']:
+                run.proved(rule, p2, desc, 'operand bounded inside the target range on every path (exact truncation)', d['loc'])
+            else:
+                run.violation(rule, p2, desc, d['why'], d['loc'])
+        # (c) float comparators
+        for bb, t in b.calls():
+            nm = callee_name(t)
+            full = t['callee'].get('full', '')
+            if called(nm, 'f64::total_cmp', 'f32::total_cmp'):
+                n_cmp += 1
+                run.violation(rule, p, 'comparator[f64::total_cmp]', 'total_cmp orders -0.0 before +0.0 and distinguishes NaN payloads: numbers that denote the same real value compare unequal',
+                              f"{t.get('file')}:{t.get('line')}")
+            elif called(nm, 'f64::to_bits') or (called(nm, 'PartialOrd::partial_cmp', 'PartialEq::eq', 'PartialOrd::lt', 'PartialOrd::le') and 'f64' in full and 'OrderedFloat' not in full):
+                n_cmp += 1
+                run.violation(rule, p, f'comparator[{canon(nm).split("::")[-1]}]', 'floats are compared by a primitive that is not a total order with NaN == NaN and -0.0 == +0.0',
+                              f"{t.get('file')}:{t.get('line')}")
+            elif 'OrderedFloat' in full and called(nm, 'Ord::cmp', 'PartialOrd::partial_cmp', 'PartialEq::eq'):
+                n_cmp += 1
+                run.proved(rule, p, f'comparator[OrderedFloat::{canon(nm).split("::")[-1]}]', 'total order on f64 with NaN greatest and equal to itself, -0.0 == +0.0 (ordered-float contract)',
+                           f"{t.get('file')}:{t.get('line')}")
+    run.floor(rule, 'float comparators in the ordering cone', n_cmp, 3)
+    # same-kind integer comparisons and the signed/unsigned cross cases
+    b = f.bodies.get(ORDER_ROOTS[0])
+    if b is not None:
+        ps, _ = explore(b)
+        vs = [v['name'] for v in f.adts[NUM]['variants']]
+        table = {}
+        for q in ps:
+            if q.end[0] != 'return':
+                continue
+            ds = [c for c in q.conds if c[0][0] == 'discr' and c[1] == 'eq']
+            if len(ds) < 2:
+                continue
+            l, r = vs[ds[0][2]], vs[ds[1][2]]
+            table.setdefault((l, r), []).append(q)
+        for pair in [(a, c) for a in vs for c in vs]:
+            if pair not in table:
+                run.violation(rule, b.path, f'pair[{pair[0]},{pair[1]}]', 'no arm compares this pair of representations (anchor lost)', f'{b.file}:{b.line}')
+            else:
+                run.proved(rule, b.path, f'pair[{pair[0]},{pair[1]}]', f'{len(table[pair])} path(s)', f'{b.file}:{b.line}', nontrivial=False)
+        # Int64 vs UInt64: negative is Less, otherwise compared as u64 after a value-preserving cast
+        for (l, r), qs in table.items():
+            if {l, r} == {'Int64', 'UInt64'}:
+                for q in qs:
+                    casts = [s for s in subterms(q.ret) if s[0] == 'cast' and s[1] == 'IntToInt']
+                    neg = [c for c in q.conds if c[0][0] == 'bin' and c[0][1] == 'Lt' and const_of(c[0][3]) == 0]
+                    if casts:
+                        ok = any(c[2] is False for c in neg)
+                        (run.proved if ok else run.violation)(rule, b.path, f'cross[{l},{r}]/cast', 'i64 -> u64 cast only for non-negative values' if ok else
+                                                               'an i64 is cast to u64 for comparison without excluding negative values', f'{b.file}:{b.line}')
+
+
+def operand_ty(body, o):
+    if o['k'] == 'const':
+        return o['ty']['s']
+    p = o['place']
+    if not p.get('proj'):
+        return body.local_ty(p['local']).get('s')
+    return None
+
+
+def float_to_int_casts(body, q):
+    """(cond index, cast term, loc) for FloatToInt casts evaluated on a path (found in the path's stored terms)."""
+    out = []
+    seen = set()
+    for e in q.events:
+        if e[0] != 'call':
+            continue
+        for a in e[2]:
+            for s in subterms(a):
+                if s[0] == 'cast' and s[1] == 'FloatToInt' and s not in seen:
+                    seen.add(s)
+                    t = e[5]
+                    out.append((e[6], s, f"{t.get('file')}:{t.get('line')}"))
+    if q.ret is not None:
+        for s in subterms(q.ret):
+            if s[0] == 'cast' and s[1] == 'FloatToInt' and s not in seen:
+                seen.add(s)
+                out.append((len(q.conds), s, f'{body.file}:{body.line}'))
+    for k, v in q.store.items():
+        if isinstance(v, tuple):
+            for s in subterms(v):
+                if s[0] == 'cast' and s[1] == 'FloatToInt' and s not in seen:
+                    seen.add(s)
+                    out.append((len(q.conds), s, f'{body.file}:{body.line}'))
+    return out
+
+
+def r18_5(ctx, run, rule='R18.5'):
+    """Views: as_i64 / as_u64 are exact or absent; as_f64 is the plain cast."""
+    f = ctx.facts
+    vs = [v['name'] for v in f.adts[NUM]['variants']]
+    for fn, target in (('as_i64', 'i64'), ('as_u64', 'u64')):
+        b = f.one('number::Number::' + fn)
+        if b is None:
+            run.violation(rule, 'number::Number::' + fn, 'body', 'function not found (anchor lost)')
+            continue
+        ps, _ = explore(b)
+        seen = set()
+        for q in ps:
+            if q.end[0] != 'return':
+                continue
+            vi = variant_of_path(q)
+            if vi is None:
+                continue
+            vname = vs[vi]
+            r = q.ret
+            loc = f'{b.file}:{b.line}'
+            if agg_variant(r) and r[1][2] == 'Some':
+                x = r[2][0]
+                src = strip_casts(x)
+                atom = payload_value_atom(q) or src
+                if vname == 'Float64':
+                    run.violation(rule, b.path, f'arm[{vname}]', f'a float is returned as {target}: {show(x)}', loc)
+                    continue
+                if x[0] == 'cast':
+                    sty = 'i64' if vname == 'Int64' else 'u64'
+                    pf = PathFacts(q.conds)
+                    rng = pf.range_of(src).intersect(IntervalSet.of_type(sty))
+                    ok = rng.subset_of(IntervalSet.of_type(target))
+                    key = (vname, 'cast')
+                    if ok:
+                        run.proved(rule, b.path, f'arm[{vname}]/cast', f'{sty} values {rng} fit {target}', loc)
+                    else:
+                        run.violation(rule, b.path, f'arm[{vname}]/cast', f'{sty} values {rng} are cast to {target} although some do not fit: the view returns a different value instead of None', loc)
+                else:
+                    if (vname == 'Int64') == (target == 'i64') and src == atom or deref_all(src) == atom:
+                        run.proved(rule, b.path, f'arm[{vname}]', 'the stored value itself', loc)
+                    else:
+                        run.violation(rule, b.path, f'arm[{vname}]', f'returns {show(x)}, not the stored value', loc)
+            elif agg_variant(r) and r[1][2] == 'None':
+                if vname == 'Float64':
+                    run.proved(rule, b.path, 'arm[Float64]', 'None', loc)
+                else:
+                    # None only for values outside the target range
+                    atom = payload_value_atom(q)
+                    if atom is not None:
+                        sty = 'i64' if vname == 'Int64' else 'u64'
+                        pf = PathFacts(q.conds)
+                        rng = pf.range_of(atom).intersect(IntervalSet.of_type(sty))
+                        inside = rng.intersect(IntervalSet.of_type(target))
+                        if inside.empty():
+                            run.proved(rule, b.path, f'arm[{vname}]/none', f'None only for {rng}, which {target} cannot represent', loc)
+                        else:
+                            run.violation(rule, b.path, f'arm[{vname}]/none', f'None is returned for {inside}, which {target} can represent', loc)
+    b = f.one('number::Number::as_f64')
+    if b is None:
+        run.violation(rule, 'number::Number::as_f64', 'body', 'function not found (anchor lost)')
+    else:
+        ps, _ = explore(b)
+        for q in ps:
+            if q.end[0] != 'return':
+                continue
+            vi = variant_of_path(q)
+            if vi is None:
+                continue
+            vname = vs[vi]
+            r = q.ret
+            ok = agg_variant(r) and r[1][2] == 'Some'
+            if ok:
+                x = r[2][0]
+                if vname == 'Float64':
+                    ok = x[0] != 'cast' and any(s[0] == 'downcast' and s[2] == 'Float64' for s in subterms(x))
+                else:
+                    ok = x[0] == 'cast' and x[1] == 'IntToFloat' and x[3] == 'f64' and any(s[0] == 'downcast' and s[2] == vname for s in subterms(x[2]))
+            (run.proved if ok else run.violation)(rule, b.path, f'arm[{vname}]', 'Some(value as f64): round-to-nearest by language semantics' if ok else f'as_f64 of {vname} returns {show(r)}', f'{b.file}:{b.line}')
